@@ -20,9 +20,9 @@ type c16CmdGrp struct {
 	CG string `long:"cgrp" description:"DESCCG" default:"SECRETV" default-mask:"MASKV"`
 }
 type c16Cmd struct {
-	CO  bool       `short:"k" long:"copt" description:"DESCCO"`
-	CGr c16CmdGrp  `group:"Cmd Group"`
-	Sub c16SubCmd  `command:"subc" description:"DESCSUB" alias:"subalias"`
+	CO  bool      `short:"k" long:"copt" description:"DESCCO"`
+	CGr c16CmdGrp `group:"Cmd Group"`
+	Sub c16SubCmd `command:"subc" description:"DESCSUB" alias:"subalias"`
 	Pos struct {
 		PA string `description:"DESCPA" positional-arg-name:"posa"`
 		PB string `positional-arg-name:"posb"`
@@ -32,12 +32,12 @@ type c16Hid struct {
 	HO bool `long:"hopt" description:"DESCHO"`
 }
 type c16Root struct {
-	RO  string  `short:"r" long:"ropt" description:"DESCRO" default:"DEFRO"`
-	RM  string  `long:"rmask" description:"DESCRM" default:"SECRETR" default-mask:"-"`
-	RN  bool    `long:"rnodesc"`
-	Grp c16Grp  `group:"Main Group" namespace:"mg"`
-	Cmd c16Cmd  `command:"cmda" description:"DESCCMDA" alias:"cmdalias"`
-	Hid c16Hid  `command:"hcmd" description:"DESCHCMD" hidden:"yes"`
+	RO  string `short:"r" long:"ropt" description:"DESCRO" default:"DEFRO"`
+	RM  string `long:"rmask" description:"DESCRM" default:"SECRETR" default-mask:"-"`
+	RN  bool   `long:"rnodesc"`
+	Grp c16Grp `group:"Main Group" namespace:"mg"`
+	Cmd c16Cmd `command:"cmda" description:"DESCCMDA" alias:"cmdalias"`
+	Hid c16Hid `command:"hcmd" description:"DESCHCMD" hidden:"yes"`
 }
 
 type c16Item struct {
